@@ -177,7 +177,61 @@ pub fn run_real<T: Elem>(max: usize, ops: &[Op]) -> String {
         2 => { let a: [T; 2] = [items[0].clone(), items[1].clone()]; eq_ok &= s == a && s == &a; let b: [T; 2] = [items[1].clone(), T::of(items[0].back() + 7)]; eq_ok &= !(s == b); }
         _ => { let a: [T; 1] = [items[0].clone()]; eq_ok &= !(s == a); }
     }
-    format!("{} | vals:{} max:{}{}", outs.join(" "), list(&contents(&s)), s.max_stack_size(), if eq_ok { "" } else { " !EQ-IMPLS" })
+    // bulk insertion from a slice (`TryExtend::try_extend_from_slice`, a provided method of the collectable trait) is
+    // bulk insertion: same verdict and same contents as `try_extend` of the same values (first value = new top)
+    let mut slice_ok = true;
+    for vals in [vec![], vec![101i64], vec![101, 102, 103]] {
+        let items: Vec<T> = vals.iter().map(|v| T::of(*v)).collect();
+        let (mut a, mut b) = (s.clone(), s.clone());
+        let ra = collectable::TryExtend::try_extend_from_slice(&mut a, &items).map_err(|e| err(&e));
+        let rb = collectable::TryExtend::try_extend(&mut b, &mut items.clone().into_iter()).map_err(|e| err(&e));
+        slice_ok &= ra == rb && contents(&a) == contents(&b) && a.max_stack_size() == b.max_stack_size();
+    }
+    format!("{} | vals:{} max:{}{}{}", outs.join(" "), list(&contents(&s)), s.max_stack_size(), if eq_ok { "" } else { " !EQ-IMPLS" }, if slice_ok { "" } else { " !SLICE" })
+}
+
+/// capacities near `usize::MAX` and exact-size iterators of astronomic length: the overflow test must not itself
+/// overflow, and nothing may be reserved or inserted before it (model-free; the values are zero-sized or never produced)
+fn huge_scenarios(r: &mut Report) {
+    let mut fails: Vec<String> = vec![];
+    let res = std::panic::catch_unwind(|| {
+        let mut out = vec![];
+        for (max, pre, n) in [(usize::MAX, 1usize, usize::MAX), (usize::MAX, 2, usize::MAX - 1), (usize::MAX - 1, 1, usize::MAX - 1), (usize::MAX, 0, usize::MAX),
+                              (usize::MAX / 2, 3, usize::MAX / 2), (10, 1, usize::MAX)] {
+            let mut s: Stack<()> = Stack::default();
+            s.set_max_stack_size(max);
+            for _ in 0..pre { s.push(()).expect("room"); }
+            let fits = n.checked_add(pre).is_some_and(|t| t <= max);
+            if fits { continue; } // would really insert n elements
+            let verdict = s.push_many((0..n).map(|_| ()));
+            if !matches!(verdict, Err(StackError::Overflow { .. })) || s.size() != pre {
+                out.push(format!("Stack<()> max={max} size={pre}: push_many of an exact-size iterator of length {n} gave {verdict:?}, size afterwards {}", s.size()));
+            }
+            let mut t: Stack<u64> = Stack::default();
+            t.set_max_stack_size(max);
+            for k in 0..pre { t.push(k as u64).expect("room"); }
+            let verdict = t.push_many((0..n).map(|k| k as u64));
+            if !matches!(verdict, Err(StackError::Overflow { .. })) || t.size() != pre {
+                out.push(format!("Stack<u64> max={max} size={pre}: push_many of an exact-size iterator of length {n} gave {verdict:?}, size afterwards {}", t.size()));
+            }
+        }
+        // a huge finite capacity is just a capacity: ordinary operations work and nothing is reserved up front
+        for max in [usize::MAX - 1, usize::MAX / 2, 1usize << 62] {
+            let mut s: Stack<u64> = Stack::default();
+            s.set_max_stack_size(max);
+            if s.push(1).is_err() || s.push_many(vec![2, 3]).is_err() || s.size() != 3 || s.pop().ok() != Some(2) { out.push(format!("Stack<u64> with capacity {max}: push / push_many / pop misbehave")); }
+        }
+        out
+    });
+    match res {
+        Ok(v) => fails.extend(v),
+        Err(_) => fails.push("an insertion into a stack with a capacity near usize::MAX / from an iterator of astronomic length panicked".into()),
+    }
+    r.case("stack huge capacities", true);
+    r.hit("huge capacity / iterator scenarios");
+    for f in fails {
+        r.violate(json!({"case": "stack huge", "real": f, "what": "overflow must be reported (and the stack left unchanged) without panicking, also when capacity or iterator length are near usize::MAX"}));
+    }
 }
 
 /// drop what the property does not fix (how many items a failing `try_extend` consumed)
@@ -252,10 +306,13 @@ fn check_case(d: &mut crate::driver::Driver, r: &mut Report, max: usize, ops: &[
     for op in ops { r.hit(&format!("op {}", op.token().split(':').next().unwrap())); }
     r.sample(json!({"request": req, "real": real_i}));
     for (ty, real) in [("i64", &real_i), ("String", &real_s)] {
+        if real.contains(" !SLICE") {
+            r.violate(json!({"case": req, "elem": ty, "real": real, "what": "try_extend_from_slice does not insert like try_extend of the same values (verdict or contents differ): bulk insertion must make the first supplied value the new top, all or nothing"}));
+        }
         if real.contains(" !EQ-IMPLS") {
             r.disagree(json!({"case": req, "elem": ty, "real": real, "impl": "a stack equals (==) exactly the vector / slice / array of its contents, bottom first"}));
         }
-        let real = &real.replace(" !EQ-IMPLS", "");
+        let real = &real.replace(" !EQ-IMPLS", "").replace(" !SLICE", "");
         if real.contains("!STATE-CHANGED") {
             r.violate(json!({"case": req, "elem": ty, "real": real, "what": "an operation reported an error but changed the stack"}));
         }
@@ -297,6 +354,7 @@ pub fn run(cfg: &Cfg) -> Report {
             check_case(d, r, max, &ops);
         }
     });
+    huge_scenarios(&mut rep);
     rep.notes.push(format!("exhaustive part: all histories of length 1..={maxlen_exh} over a {k}-operation alphabet, initial capacities 0..3 ({n_exh} histories); random part: {n_rand} histories of length <= {rand_len}"));
     rep
 }
